@@ -825,6 +825,27 @@ func TestMessages(t *testing.T) {
 			}
 		}
 	}
+	// messages larger than any initial buffer: many batch items, a large managed object, many identifiers
+	{
+		var items []kmip.RequestBatchItem
+		for i := 0; i < 300; i++ {
+			items = append(items, kmip.RequestBatchItem{Operation: kmip.OperationGet, UniqueBatchItemID: []byte(fmt.Sprintf("item-%d", i)),
+				RequestPayload: &payloads.GetRequestPayload{UniqueIdentifier: fmt.Sprintf("id-%d", i)}})
+		}
+		check("large/300-get-items", &kmip.RequestMessage{Header: kmip.RequestHeader{ProtocolVersion: kmip.V1_4, BatchCount: 300}, BatchItem: items},
+			func() any { return new(kmip.RequestMessage) })
+		blob := bytes.Repeat([]byte{0xA5, 0x5A, 1, 2, 3}, 5000)
+		check("large/register-opaque-25kB", &kmip.RequestMessage{Header: kmip.RequestHeader{ProtocolVersion: kmip.V1_2, BatchCount: 1},
+			BatchItem: []kmip.RequestBatchItem{{Operation: kmip.OperationRegister, RequestPayload: &payloads.RegisterRequestPayload{ObjectType: kmip.ObjectTypeOpaqueObject,
+				Object: &kmip.OpaqueObject{OpaqueDataType: kmip.OpaqueDataType(1), OpaqueDataValue: blob}}}}}, func() any { return new(kmip.RequestMessage) })
+		var ids []string
+		for i := 0; i < 700; i++ {
+			ids = append(ids, fmt.Sprintf("0123456789abcdef-%d", i))
+		}
+		check("large/locate-700-ids", &kmip.ResponseMessage{Header: kmip.ResponseHeader{ProtocolVersion: kmip.V1_0, TimeStamp: sampleTime, BatchCount: 1},
+			BatchItem: []kmip.ResponseBatchItem{{Operation: kmip.OperationLocate, ResponsePayload: &payloads.LocateResponsePayload{UniqueIdentifier: ids}}}},
+			func() any { return new(kmip.ResponseMessage) })
+	}
 	out.Emit(map[string]any{"summary": true, "messages": n})
 }
 
@@ -841,4 +862,187 @@ func firstDiff(a, b []byte) int {
 		return len(b)
 	}
 	return -1
+}
+
+// ---- C18 (typed targets): accepted non-canonical inputs reach a fixed point ---------------------------------------
+//
+// Every whole message (27 operations x 2 directions, full population) is encoded, parsed with the independent parser
+// and perturbed at every node: a leaf's value replaced by its zero value (an element that omitempty would not have
+// written), an unknown element appended to a structure, the last child duplicated, the first two children swapped.
+// Whatever the typed decoder accepts must re-encode to something it accepts again, and a second re-encoding must be
+// identical to the first; the same through XML and JSON.
+
+func zeroLeaf(it *refwire.Item) bool {
+	switch it.Type {
+	case 2, 5, 10:
+		it.Raw = []byte{0, 0, 0, 0}
+	case 3, 9:
+		it.Raw = make([]byte, 8)
+	case 6:
+		it.Raw = make([]byte, 8)
+	case 4:
+		it.Big = big.NewInt(0)
+	case 7, 8:
+		it.Raw = []byte{}
+	default:
+		return false
+	}
+	return true
+}
+
+func cloneItem(it *refwire.Item) *refwire.Item {
+	c := *it
+	c.Raw = append([]byte(nil), it.Raw...)
+	if it.Big != nil {
+		c.Big = new(big.Int).Set(it.Big)
+	}
+	c.Kids = nil
+	for _, k := range it.Kids {
+		c.Kids = append(c.Kids, cloneItem(k))
+	}
+	return &c
+}
+
+// variants returns perturbed copies of root, one perturbation each, with a label
+func variants(root *refwire.Item) (res []*refwire.Item, labels []string) {
+	var paths [][]int
+	var walk func(it *refwire.Item, path []int)
+	walk = func(it *refwire.Item, path []int) {
+		paths = append(paths, append([]int(nil), path...))
+		for i, k := range it.Kids {
+			walk(k, append(path, i))
+		}
+	}
+	walk(root, nil)
+	at := func(r *refwire.Item, path []int) *refwire.Item {
+		for _, i := range path {
+			r = r.Kids[i]
+		}
+		return r
+	}
+	for _, p := range paths {
+		n := at(root, p)
+		if n.Type != 1 {
+			c := cloneItem(root)
+			if zeroLeaf(at(c, p)) {
+				res, labels = append(res, c), append(labels, fmt.Sprintf("zero-leaf:%s", ttlv.TagString(n.Tag)))
+			}
+			continue
+		}
+		c := cloneItem(root)
+		x := at(c, p)
+		x.Kids = append(x.Kids, &refwire.Item{Tag: 0x540099, Type: 7, Raw: []byte("unknown")})
+		res, labels = append(res, c), append(labels, fmt.Sprintf("unknown-element-in:%s", ttlv.TagString(n.Tag)))
+		if len(n.Kids) >= 1 {
+			c := cloneItem(root)
+			x := at(c, p)
+			x.Kids = append(x.Kids, cloneItem(x.Kids[len(x.Kids)-1]))
+			res, labels = append(res, c), append(labels, fmt.Sprintf("duplicate-last-in:%s", ttlv.TagString(n.Tag)))
+		}
+		if len(n.Kids) >= 2 {
+			c := cloneItem(root)
+			x := at(c, p)
+			x.Kids[0], x.Kids[1] = x.Kids[1], x.Kids[0]
+			res, labels = append(res, c), append(labels, fmt.Sprintf("swap-first-two-in:%s", ttlv.TagString(n.Tag)))
+		}
+	}
+	return
+}
+
+func TestTypedFixedPoint(t *testing.T) {
+	outPath := vh.Env("VERIF_OUT", "")
+	if outPath == "" {
+		t.Skip("VERIF_OUT not set")
+	}
+	out, err := vh.NewWriter(outPath)
+	if err != nil {
+		t.Fatal(err)
+	}
+	defer out.Close()
+	type hop struct {
+		name string
+		m    func(any) []byte
+		u    func([]byte, any) error
+	}
+	hops := []hop{{"ttlv", ttlv.MarshalTTLV, ttlv.UnmarshalTTLV}, {"xml", ttlv.MarshalXML, ttlv.UnmarshalXML}, {"json", ttlv.MarshalJSON, ttlv.UnmarshalJSON}}
+	inputs, accepted := 0, 0
+	safe := func(f func()) (pan string) {
+		defer func() {
+			if r := recover(); r != nil {
+				pan = vh.PanicSig(r)
+			}
+		}()
+		f()
+		return ""
+	}
+	for _, e := range opTable {
+		for dir, pl := range []kmip.OperationPayload{e.Req, e.Resp} {
+			p := buildPayload(pl, full, 1)
+			fixupPayload(p)
+			var msg any
+			newPtr := func() any { return new(kmip.RequestMessage) }
+			if dir == 0 {
+				msg = &kmip.RequestMessage{Header: kmip.RequestHeader{ProtocolVersion: kmip.V1_4, BatchCount: 1}, BatchItem: []kmip.RequestBatchItem{{Operation: e.Op, RequestPayload: p}}}
+			} else {
+				msg = &kmip.ResponseMessage{Header: kmip.ResponseHeader{ProtocolVersion: kmip.V1_4, TimeStamp: sampleTime, BatchCount: 1}, BatchItem: []kmip.ResponseBatchItem{{Operation: e.Op, ResponsePayload: p}}}
+				newPtr = func() any { return new(kmip.ResponseMessage) }
+			}
+			root, err := refwire.Parse(ttlv.MarshalTTLV(msg), true)
+			if err != nil {
+				continue
+			}
+			vs, labels := variants(root)
+			for vi, v := range vs {
+				bin := refwire.Encode(v)
+				inputs++
+				id := fmt.Sprintf("%s/%d/%s", ttlv.EnumStr(e.Op), dir, labels[vi])
+				var probs []string
+				// the input in each encoding (XML / JSON through the generic untyped value)
+				var generic ttlv.Value
+				if ttlv.UnmarshalTTLV(bin, &generic) != nil {
+					continue
+				}
+				for _, h := range hops {
+					doc := bin
+					if h.name != "ttlv" {
+						doc = h.m(generic)
+					}
+					first := newPtr()
+					var derr error
+					if pan := safe(func() { derr = h.u(doc, first) }); pan != "" {
+						probs = append(probs, h.name+":decode-panic:"+pan)
+						continue
+					}
+					if derr != nil {
+						continue // rejected inputs are outside the property
+					}
+					if h.name == "ttlv" {
+						accepted++
+					}
+					var re1 []byte
+					if pan := safe(func() { re1 = h.m(first) }); pan != "" {
+						probs = append(probs, h.name+":reencode-panic:"+pan)
+						continue
+					}
+					second := newPtr()
+					if pan := safe(func() { derr = h.u(re1, second) }); pan != "" {
+						probs = append(probs, h.name+":decode-panic-on-reencoding:"+pan)
+						continue
+					}
+					if derr != nil {
+						probs = append(probs, fmt.Sprintf("%s:reencoding-not-accepted:%v", h.name, derr))
+						continue
+					}
+					re2 := h.m(second)
+					if !bytes.Equal(re1, re2) {
+						probs = append(probs, h.name+":second-reencoding-differs")
+					}
+				}
+				if len(probs) > 0 {
+					out.Emit(map[string]any{"input": id, "hex": fmt.Sprintf("%x", bin), "problems": probs})
+				}
+			}
+		}
+	}
+	out.Emit(map[string]any{"summary": true, "inputs": inputs, "accepted": accepted})
 }
